@@ -87,7 +87,7 @@ def worker(args):
                                      + ' | '.join(l for l in r.stdout.splitlines() if 'ANALYSIS' in l)[:200], 1))
                     continue
                 if r.returncode == 1 and 'VIOLATION' in r.stdout:
-                    rows.append((name, prop, 'DETECTED ' + '; '.join(keys[:2])[:150], 0))
+                    rows.append((name, prop, 'DETECTED ' + '; '.join(keys[:2])[:150], 0, keys))
                 elif r.returncode == 2:
                     rows.append((name, prop, 'ANALYSIS-ERROR (exit 2): ' + ' | '.join(l for l in r.stdout.splitlines() if 'ANALYSIS' in l)[:150], 1))
                 else:
@@ -132,7 +132,7 @@ def main():
     for n, p, s in rows:
         print('%-*s %-4s %s' % (w, n, p, s))
     if jout:
-        json.dump([{'case': n, 'property': p, 'result': r} for n, p, r in rows], open(jout, 'w'), indent=1)
+        json.dump([{'case': r[0], 'property': r[1], 'result': r[2], 'keys': (r[4] if len(r) > 4 else [])} for r in rows4], open(jout, 'w'), indent=1)
     print('selftest: %d case/property pairs, %d not as expected' % (len(rows), bad))
     sys.exit(1 if bad else 0)
 
